@@ -591,6 +591,10 @@ class _Inliner:
                     self.count += 1
                     continue          # re-examine the spliced statements
                 self._expr_inline(st, cls, fn_stack, helpers)
+                hoisted = self._hoist(st, cls, fn_stack, helpers)
+                if hoisted is not None:
+                    body[i:i + 1] = hoisted
+                    continue          # the hoisted `tmp = helper(..)` is inlined on re-examination
                 for fld in ("body", "orelse", "finalbody"):
                     sub = getattr(st, fld, None)
                     if isinstance(sub, list) and sub and isinstance(sub[0], ast.stmt):
@@ -645,9 +649,16 @@ class _Inliner:
             body = [copy.deepcopy(s) for s in body]
             rets = [n for s_ in body for n in _walk_local(s_) if isinstance(n, ast.Return)]
             same = {n.value.id for n in rets if isinstance(n.value, ast.Name)} if rets and all(isinstance(n.value, ast.Name) for n in rets) else set()
-            if mode == "assign" and len(same) == 1 and _always_returns(body) and not any(p_.arg == next(iter(same)) for p_ in helper.args.args):
+            single_result = mode == "assign" and len(same) == 1 and _always_returns(body) and not any(p_.arg == next(iter(same)) for p_ in helper.args.args)
+            # the helper's names are renamed BEFORE the caller's assignment target is put in: the target belongs to the caller
+            rn = _Renamer(mapping)
+            body = [rn.visit(s) for s in body]
+            if single_result:
                 # every exit returns the same local: run the body for its effects, then bind the result once
                 rv = next(iter(same))
+                rv = mapping.get(rv, rv)
+                if not isinstance(rv, str):
+                    raise _NotInlinable("result variable")
                 new = _conv(body, "stmt", None) + [ast.copy_location(ast.Assign(targets=[copy.deepcopy(target)], value=ast.Name(id=rv, ctx=ast.Load()), lineno=st.lineno), st)]
             else:
                 new = _conv(body, mode, target)
@@ -655,14 +666,97 @@ class _Inliner:
                 new = [ast.copy_location(ast.Assign(targets=[copy.deepcopy(target)], value=ast.Constant(value=None), lineno=st.lineno), st)] + new
         except _NotInlinable:
             return None
-        rn = _Renamer(mapping)
-        new = [rn.visit(s) for s in new]
         _drop_self_assign(new)
         out = prefix + new
         for s in out:
             ast.fix_missing_locations(s)
         self.inlined_helpers[id(helper)] = self.inlined_helpers.get(id(helper), 0) + 1
         return out or [ast.copy_location(ast.Pass(), st)]
+
+    # -- a helper call in the middle of an expression: `return helper(a) + b` -> `tmp = helper(a); return tmp + b`
+    def _hoist(self, st, cls, fn_stack, helpers):
+        """only when the call is evaluated unconditionally and nothing but plain names / constants is evaluated before it"""
+        if isinstance(st, (ast.Return, ast.Expr)):
+            root = st.value
+        elif isinstance(st, ast.Assign):
+            root = st.value
+        elif isinstance(st, ast.AugAssign) and isinstance(st.target, ast.Name):
+            root = st.value
+        elif isinstance(st, ast.If):
+            root = st.test
+        else:
+            return None
+        if root is None or self._call_of(root) is not None and self.resolve(self._call_of(root), cls, fn_stack, helpers) is not None:
+            return None
+        FOUND, CLEAN, DIRTY = "found", "clean", "dirty"
+        outer = self
+
+        def usable(call):
+            h = outer.resolve(call, cls, fn_stack, helpers)
+            if h is None:
+                return False
+            helper, _m = h
+            if helper in fn_stack or isinstance(helper, ast.AsyncFunctionDef):
+                return False
+            if any(isinstance(n, (ast.Yield, ast.YieldFrom)) for s_ in helper.body for n in _walk_local(s_)):
+                return False
+            if _has_return_in_loop_or_with(_helper_body(helper)):
+                return False
+            return not any(isinstance(a, ast.Starred) for a in call.args) and not any(k.arg is None for k in call.keywords)
+
+        def seq(parts):
+            for p_ in parts:
+                r = find(p_)
+                if r[0] != CLEAN:
+                    return r
+            return (CLEAN, None)
+
+        def find(e):
+            if e is None or isinstance(e, (ast.Name, ast.Constant)):
+                return (CLEAN, None)
+            if isinstance(e, ast.Call):
+                if usable(e):
+                    return (FOUND, e)
+                if isinstance(e.func, ast.Name):
+                    r = seq(list(e.args) + [k.value for k in e.keywords])
+                else:
+                    r = seq([e.func] + list(e.args) + [k.value for k in e.keywords])
+                return r if r[0] == FOUND else (DIRTY, None)
+            if isinstance(e, ast.BinOp):
+                return seq([e.left, e.right])
+            if isinstance(e, ast.UnaryOp):
+                return find(e.operand)
+            if isinstance(e, ast.Compare) and len(e.ops) == 1:
+                return seq([e.left, e.comparators[0]])
+            if isinstance(e, (ast.Tuple, ast.List, ast.Set)) and isinstance(getattr(e, "ctx", ast.Load()), ast.Load):
+                return seq(e.elts)
+            if isinstance(e, ast.Starred):
+                return find(e.value)
+            if isinstance(e, ast.Subscript) and isinstance(e.ctx, ast.Load):
+                r = seq([e.value, e.slice])
+                return r if r[0] == FOUND else (DIRTY, None)
+            if isinstance(e, ast.Attribute):
+                r = find(e.value)
+                return r if r[0] == FOUND else (DIRTY, None)
+            if isinstance(e, ast.IfExp):
+                r = find(e.test)
+                return r if r[0] == FOUND else (DIRTY, None)
+            if isinstance(e, ast.BoolOp):
+                r = find(e.values[0])
+                return r if r[0] == FOUND else (DIRTY, None)
+            if isinstance(e, ast.JoinedStr):
+                return seq([v.value for v in e.values if isinstance(v, ast.FormattedValue)])
+            return (DIRTY, None)
+        kind, call = find(root)
+        if kind != FOUND:
+            return None
+        helper = self.resolve(call, cls, fn_stack, helpers)[0]
+        self._hoist_n = getattr(self, "_hoist_n", 0) + 1
+        tmp = f"{helper.name}__r{self._hoist_n}"
+        asg = ast.copy_location(ast.Assign(targets=[ast.Name(id=tmp, ctx=ast.Store())], value=call, lineno=st.lineno), st)
+        _replace_node(st, call, ast.copy_location(ast.Name(id=tmp, ctx=ast.Load()), call))
+        ast.fix_missing_locations(asg)
+        return [asg, st]
 
     # -- expression-bodied helpers anywhere in an expression
     def _expr_inline(self, st, cls, fn_stack, helpers):
@@ -1500,6 +1594,27 @@ def _rotate_loops(fn):
     return n
 
 
+# ------------------------------------------------------------------ N13 `a, b = x, y` -> `a = x; b = y` when no value reads a target
+
+def _split_parallel_assign(fn):
+    n = 0
+    for blk in _blocks(fn):
+        i = 0
+        while i < len(blk):
+            st = blk[i]
+            if isinstance(st, ast.Assign) and len(st.targets) == 1 and isinstance(st.targets[0], ast.Tuple) and isinstance(st.value, ast.Tuple) and \
+                    len(st.targets[0].elts) == len(st.value.elts) and all(isinstance(t, ast.Name) for t in st.targets[0].elts) and \
+                    not any(isinstance(v, ast.Starred) for v in st.value.elts):
+                tnames = {t.id for t in st.targets[0].elts}
+                read = {x.id for v in st.value.elts for x in ast.walk(v) if isinstance(x, ast.Name)}
+                if len(tnames) == len(st.targets[0].elts) and not (tnames & read):
+                    blk[i:i + 1] = [ast.copy_location(ast.Assign(targets=[t], value=v, lineno=st.lineno), st) for t, v in zip(st.targets[0].elts, st.value.elts)]
+                    n += 1
+                    continue
+            i += 1
+    return n
+
+
 # ------------------------------------------------------------------ N7 nested ifs without else -> one conjunction
 
 def _merge_nested_ifs(fn):
@@ -1831,6 +1946,7 @@ def normalize(modname, tree):
         for n in ast.walk(tree):
             if isinstance(n, FUNC):
                 # N3 is not applied (see flow.return_alts: rules enumerate the alternatives of a conditional return themselves)
+                stats["split_assign"] = stats.get("split_assign", 0) + _split_parallel_assign(n)
                 stats["comprehensions"] += _loops_to_comprehensions(n)
                 stats["named_conditions"] += _named_conditions(n)
                 k = _thread_jumps(n)
